@@ -62,7 +62,7 @@ func staticClosure(w *World, entry *ssa.Function) map[*ssa.Function]bool {
 //	"has:false|true|DNE"  contains(params, X)
 func proxyAtom(v ssa.Value) string {
 	if c, callee := staticCallee(v); c != nil && callee != nil {
-		switch callee.Name() {
+		switch nm(callee) {
 		case "isAndOpNode":
 			return "and"
 		case "isOrOpNode":
@@ -297,7 +297,7 @@ func ruleCachedGate(w *World, r *Report) {
 	for _, fn := range w.SortedFuncs(set) {
 		EachInstr(fn, func(in ssa.Instruction) {
 			c, ok := in.(*ssa.Call)
-			if !ok || !c.Call.IsInvoke() || c.Call.Method.Name() != "Get" || typeNameOf(c.Call.Value.Type()) != "VariableFetcher" {
+			if !ok || !c.Call.IsInvoke() || nm(c.Call.Method) != "Get" || typeNameOf(c.Call.Value.Type()) != "VariableFetcher" {
 				return
 			}
 			pos := w.InstrPos(c)
@@ -305,7 +305,7 @@ func ruleCachedGate(w *World, r *Report) {
 			var gateIf *ssa.If
 			for _, f := range factsAt(c.Block()) {
 				cc, ok := f.Cond.(*ssa.Call)
-				if !ok || !f.Truth || !cc.Call.IsInvoke() || cc.Call.Method.Name() != "Cached" {
+				if !ok || !f.Truth || !cc.Call.IsInvoke() || nm(cc.Call.Method) != "Cached" {
 					continue
 				}
 				if !(cc.Call.Value == c.Call.Value || sameValueShape(cc.Call.Value, c.Call.Value)) {
@@ -489,7 +489,7 @@ func rulePair(w *World, r *Report) {
 		boolAtoms := func(fs []Fact) []string {
 			var out []string
 			for _, f := range fs {
-				if c, callee := staticCallee(f.Cond); c != nil && callee != nil && callee.Name() == "isBoolOpNode" && f.Truth {
+				if c, callee := staticCallee(f.Cond); c != nil && callee != nil && nm(callee) == "isBoolOpNode" && f.Truth {
 					out = append(out, "bool=T")
 				}
 			}
@@ -598,7 +598,7 @@ func ruleDneBool(w *World, r *Report) {
 	var res ssa.Value
 	EachInstr(fn, func(in ssa.Instruction) {
 		if c, ok := in.(*ssa.Call); ok {
-			if callee := c.Call.StaticCallee(); callee != nil && callee.Name() == "TryEval" {
+			if callee := c.Call.StaticCallee(); callee != nil && nm(callee) == "TryEval" {
 				for _, ref := range referrers(c) {
 					if ex, ok := ref.(*ssa.Extract); ok && ex.Index == 0 {
 						res = ex
@@ -630,7 +630,7 @@ func ruleDneBool(w *World, r *Report) {
 	errDneRet := 0
 	for _, ret := range allReturns(fn) {
 		if a, ok := isLoad(ret.Results[1]); ok {
-			if g, ok := a.(*ssa.Global); ok && g.Name() == "ErrDNE" {
+			if g, ok := a.(*ssa.Global); ok && nm(g) == "ErrDNE" {
 				errDneRet++
 				under := false
 				for _, f := range factsAt(ret.Block()) {
@@ -755,7 +755,7 @@ func ruleFastProxy(w *World, r *Report) {
 	applied := false
 	EachInstr(te, func(in ssa.Instruction) {
 		c, ok := in.(*ssa.Call)
-		if !ok || c.Call.StaticCallee() == nil || c.Call.StaticCallee().Name() != "executeOperatorProxy" {
+		if !ok || c.Call.StaticCallee() == nil || nm(c.Call.StaticCallee()) != "executeOperatorProxy" {
 			return
 		}
 		base := c.Call.Args[1]
